@@ -535,7 +535,28 @@ func c19Value(o *Out, r *rand.Rand, t reflect.Type, v reflect.Value, nq int) {
 	}
 }
 
+// the one open finding of C19, as a predicate on the value and the query: a recursive struct type is reached and the
+// query has a sub query (the fields below a recursive position are then selected by the first occurrence's query)
 func c19Classify(t reflect.Type, v reflect.Value, qs []*c19Q) string {
+	hasSub := false
+	for _, q := range qs {
+		if q.sub != nil {
+			hasSub = true
+		}
+	}
+	if !hasSub {
+		return ""
+	}
+	rec := false
+	tgValueTypes(v, 0, func(x reflect.Type) {
+		switch x {
+		case reflect.TypeOf(TgRec{}), reflect.TypeOf(TgMutA{}), reflect.TypeOf(TgMutB{}), reflect.TypeOf(TgRecEmb{}), reflect.TypeOf(TgMutEmbA{}), reflect.TypeOf(TgMutEmbB{}):
+			rec = true
+		}
+	})
+	if rec {
+		return "RecursiveTypeSubQuery"
+	}
 	return ""
 }
 
